@@ -308,8 +308,15 @@ func k4(w *World, r *Report) {
 	if info == nil {
 		return
 	}
-	usesRecord := len(w.callsTo(info, fref{"ctrlers/types", "MetaDB", "LastBlockContext"})) > 0
-	h := len(w.callsTo(info, fref{"ctrlers/types", "BlockContext", "Height"})) > 0
-	a := len(w.callsTo(info, fref{"ctrlers/types", "BlockContext", "AppHash"})) > 0
+	usesRecord, h, a := false, false, false
+	// in Info or in a helper of the application that Info calls
+	for _, g := range w.withModuleCallees(info, 2) {
+		if g != info && w.FuncPkgPath(g) != w.FuncPkgPath(info) {
+			continue
+		}
+		usesRecord = usesRecord || len(w.callsTo(g, fref{"ctrlers/types", "MetaDB", "LastBlockContext"})) > 0
+		h = h || len(w.callsTo(g, fref{"ctrlers/types", "BlockContext", "Height"})) > 0
+		a = a || len(w.callsTo(g, fref{"ctrlers/types", "BlockContext", "AppHash"})) > 0
+	}
 	r.Check(usesRecord && h && a, "K-4", "Info:reads-record", "Info loads the last-block record and reports its height and app hash", "Info no longer reports height and app hash from the last-block record that Commit writes last", fnSite(w, info))
 }
